@@ -71,6 +71,19 @@ def sync_overlay(dest=OVERLAY, src=REPO):
         else:
             hsrc = os.path.join(UNITS, m["file"])
         shutil.copy2(hsrc, hdst)
+        for ex in m.get("extra", []):
+            gdir = os.path.join(KDIR, "gen")
+            os.makedirs(gdir, exist_ok=True)
+            esrc = os.path.join(gdir, os.path.basename(ex["dest"]))
+            tmp = esrc + ".new"
+            rc, out, err, _ = run(["python3", os.path.join(UNITS, ex["gen"]), src, tmp])
+            if rc != 0:
+                raise KaniSetupError("generator %s failed: %s" % (ex["gen"], err[-600:]))
+            if os.path.exists(esrc) and open(esrc).read() == open(tmp).read():
+                os.remove(tmp)
+            else:
+                os.replace(tmp, esrc)
+            shutil.copy2(esrc, os.path.join(dest, ex["dest"]))
         st = os.stat(parent)
         with open(parent, "a") as f:
             f.write("\n#[cfg(kani)]\nmod %s;\n" % m["mod"])
@@ -212,9 +225,45 @@ def parse_output(text):
     return res, summary
 
 
+def tree_hash(overlay=OVERLAY):
+    """Content hash of everything a harness result depends on: all sources of the overlay (the
+    mirrored /repo working tree + injected modules), manifests, lock file and tool versions."""
+    import hashlib
+    h = hashlib.sha256()
+    h.update(b"kani-0.68.0/cbmc-6.11.0\n")
+    for root, dirs, files in os.walk(overlay):
+        dirs[:] = sorted(d for d in dirs if d not in ("target", ".git"))
+        for f in sorted(files):
+            if f.endswith((".rs", ".toml", ".lock")):
+                p = os.path.join(root, f)
+                h.update(os.path.relpath(p, overlay).encode() + b"\0")
+                h.update(open(p, "rb").read())
+                h.update(b"\0")
+    return h.hexdigest()[:24]
+
+
 def run_group(pkg, harnesses, features=None, timeout_s=600, harness_timeout_s=300, extra=None, jobs=None,
-              mem_cap_gb=24, overlay=OVERLAY, target=TARGET):
-    """One `cargo kani` invocation for a list of exact harness names of one package."""
+              mem_cap_gb=24, overlay=OVERLAY, target=TARGET, use_cache=True):
+    """One `cargo kani` invocation for a list of exact harness names of one package.
+
+    Successful harness results are memoised under build/kani/cache/<tree hash>/: the key is the
+    content of the whole mirrored source tree, so a hit is the same obligation on byte-identical
+    sources (several properties share instruction harnesses).  Failures are never cached."""
+    cached = {}
+    cdir = None
+    if use_cache and overlay == OVERLAY and os.environ.get("VERIF_NO_CACHE") != "1":
+        cdir = os.path.join(KDIR, "cache", tree_hash(overlay) + "-" + re.sub(r"\W+", "_", pkg + (features or "")))
+        os.makedirs(cdir, exist_ok=True)
+        for h in harnesses:
+            cp = os.path.join(cdir, re.sub(r"\W+", "_", h) + ".json")
+            if os.path.exists(cp):
+                cached[h] = json.load(open(cp))
+                cached[h]["cached"] = True
+        harnesses = [h for h in harnesses if h not in cached]
+        if not harnesses:
+            return {"rc": 0, "wall_s": 0.0, "results": cached, "summary": None, "compile_error": None,
+                    "cmd": "(all %d harness results reused from the content-addressed cache %s)" % (len(cached), cdir),
+                    "stderr_tail": "", "killed": []}
     cmd = ["cargo", "kani", "-p", pkg, "--target-dir", target, "--output-format", "terse",
            "-Z", "stubbing", "-Z", "function-contracts", "-Z", "unstable-options",
            "--harness-timeout", "%ds" % harness_timeout_s, "--exact", "-j", str(jobs or NCPU)]
@@ -232,8 +281,8 @@ def run_group(pkg, harnesses, features=None, timeout_s=600, harness_timeout_s=30
     res, summary = parse_output(out)
     compile_error = None
     if rc != 0 and not res:
-        m = re.search(r"(error(\[E\d+\])?: [\s\S]{0,3000})", err)
-        compile_error = m.group(1) if m else err[-3000:]
+        blocks = re.findall(r"^error(?:\[E\d+\])?: (?!could not compile|Failed to execute)[^\n]*(?:\n[^\n]*){0,10}", err + "\n" + out, re.M)
+        compile_error = "\n".join(blocks)[:4000] if blocks else err[-3000:]
     for h in harnesses:
         if h not in res:
             res[h] = {"status": "timeout" if rc == -9 else "missing", "raw": ""}
@@ -243,6 +292,12 @@ def run_group(pkg, harnesses, features=None, timeout_s=600, harness_timeout_s=30
         for h, r in res.items():
             if r["status"] in ("error", "failed") and not r.get("failed_checks"):
                 r["status"] = "oom"
+    if cdir:
+        for h, r in res.items():
+            if r.get("status") == "success":
+                r2 = {k: v for k, v in r.items() if k != "raw"}
+                json.dump(r2, open(os.path.join(cdir, re.sub(r"\W+", "_", h) + ".json"), "w"))
+    res.update(cached)
     return {"rc": rc, "wall_s": wall, "results": res, "summary": summary, "compile_error": compile_error,
             "cmd": " ".join(cmd), "stderr_tail": err[-2000:], "killed": wd.killed}
 
